@@ -136,6 +136,11 @@ theorem rootUnit_baseInv (h : BaseInv s) (hc : Canon s) {a : Nat} (ha : a < s.un
         · exact h
         · exact newUnit_baseInv h _ _ (baseF_simplify hc (baseF_map (fun e => Int.fdiv e n) (unit_baseF h ha)))
 
+theorem two_newUnits_baseInv (h : BaseInv s) (p q : Pfx) {num den : Factors} (d1 : Dim) (d2 : St → Dim)
+    (hnum : BaseF s num) (hden : BaseF s den) :
+    BaseInv ((s.newUnit p num d1).1.newUnit q den (d2 (s.newUnit p num d1).1)).1 :=
+  newUnit_baseInv (newUnit_baseInv h p d1 hnum) q _ ((newUnit_ext s p num d1).baseF hden)
+
 theorem asRatio_baseInv (h : BaseInv s) (hc : Canon s) {a : Nat} (ha : a < s.units.length) :
     BaseInv (s.asRatio a).1 := by
   unfold asRatio
@@ -151,11 +156,7 @@ theorem asRatio_baseInv (h : BaseInv s) (hc : Canon s) {a : Nat} (ha : a < s.uni
     split
     · exact baseF_one hc
     · exact baseF_map (fun e => -e) (baseF_filter _ hu)
-  have h1 := newUnit_baseInv h (s.unit! a).pfx (s.dimOf _) hnum
-  have x1 := newUnit_ext s (s.unit! a).pfx
-    (if ((s.unit! a).factors.filter (fun f => f.2 ≥ 0)).isEmpty then [(s.one, (1 : Int))]
-      else (s.unit! a).factors.filter (fun f => f.2 ≥ 0)) (s.dimOf _)
-  exact newUnit_baseInv h1 _ _ (x1.baseF hden)
+  exact two_newUnits_baseInv h _ _ _ (fun s1 => s1.dimOf _) hnum hden
 
 theorem unprefixedUnit_baseInv (h : BaseInv s) {a : Nat} (ha : a < s.units.length) :
     BaseInv (s.unprefixedUnit a).1 := by
@@ -177,26 +178,8 @@ theorem sameUnits_baseInv {s s' : St} (h : BaseInv s) (hu : s'.units = s.units) 
   obtain ⟨a, b, c⟩ := h u hu' f hf
   exact ⟨by rw [hu]; exact a, by unfold St.unit! at b ⊢; rw [hu]; exact b, by unfold St.unit! at c ⊢; rw [hu]; exact c⟩
 
-theorem bindName_units (s : St) (a : UId) (name : Option String) : (s.bindName a name).units = s.units := by
-  cases name with
-  | none => rfl
-  | some n => by_cases hne : (n == "") = true <;> simp [bindName, hne]
-
-theorem bindSym_units (s : St) (a : UId) (sym : Option String) : (s.bindSym a sym).units = s.units := by
-  cases sym with
-  | none => rfl
-  | some n => by_cases hne : (n == "") = true <;> simp [bindSym, hne]
-
-theorem aliasUnit_units (s : St) (a : UId) (name sym : Option String) : (s.aliasUnit a name sym).1.units = s.units := by
-  unfold aliasUnit
-  split
-  · rfl
-  · split
-    · rfl
-    · simp only [bindSym_units, bindName_units]
-
 theorem aliasUnit_baseInv (h : BaseInv s) (a : UId) (name sym : Option String) : BaseInv (s.aliasUnit a name sym).1 :=
-  sameUnits_baseInv h (aliasUnit_units s a name sym)
+  sameUnits_baseInv h (aliasUnit_units s a name sym).1
 
 theorem appendBase_baseInv (h : BaseInv s) (d : Dim) : BaseInv (s.appendBase d) := by
   have hx := appendBase_ext s d
